@@ -285,8 +285,64 @@ theorem rise_nb_masks (k : Kind) (b : Nat) (hb : 0 < b) (grids : List (List Rat)
     simpa using this
   rw [h2, flatten_batches b hb]
 
+/-! ### the deterministic fact behind "(on average) the requested preservation probability" -/
+
+private theorem wsum_affine4 (ws : List Rat) (gs : List (Nat → Nat → Rat)) (a b c d : Rat)
+    (r1 c1 r2 c2 r3 c3 r4 c4 : Nat) :
+    sumQ (List.zipWith (fun w g => w * (a * g r1 c1 + b * g r2 c2 + c * g r3 c3 + d * g r4 c4)) ws gs)
+      = a * sumQ (List.zipWith (fun w g => w * g r1 c1) ws gs)
+      + b * sumQ (List.zipWith (fun w g => w * g r2 c2) ws gs)
+      + c * sumQ (List.zipWith (fun w g => w * g r3 c3) ws gs)
+      + d * sumQ (List.zipWith (fun w g => w * g r4 c4) ws gs) := by
+  induction ws generalizing gs with
+  | nil => simp
+  | cons w ws ih =>
+    cases gs with
+    | nil => simp
+    | cons g gs => simp only [List.zipWith_cons_cons, sumQ_cons, ih]; ring
+
+/-- the bilinear upsample is an affine combination (weights depending on the pixel only, summing
+    to one) of four grid cells -/
+theorem rise_upsample_affine (H' W' h w : Nat) (i j : Nat) :
+    ∃ a b c d : Rat, a + b + c + d = 1 ∧ ∀ g : Nat → Nat → Rat,
+      up2 H' W' h w g i j
+        = a * g (tapLo H' h i) (tapLo W' w j) + b * g (tapLo H' h i) (tapHi W' w j)
+        + c * g (tapHi H' h i) (tapLo W' w j) + d * g (tapHi H' h i) (tapHi W' w j) := by
+  refine ⟨(1 - frac H' h i) * (1 - frac W' w j), (1 - frac H' h i) * frac W' w j,
+          frac H' h i * (1 - frac W' w j), frac H' h i * frac W' w j, by ring, ?_⟩
+  intro g
+  unfold up2 lerp
+  ring
+
+/-- **mean preservation** — take ANY finite distribution over binary grids (weights `ws`, grids
+    `gs`) under which every grid cell is kept with probability `p` (what `uniform < p` gives for
+    each cell). Then every pixel of the upsampled mask — hence of every crop window, hence of every
+    applied mask — has expectation exactly `p`. This is the deterministic content of "masks have on
+    average the requested preservation probability"; that TensorFlow's RNG realises such a
+    distribution is not proved. -/
+theorem rise_mean_preservation (H' W' h w : Nat) (ws : List Rat) (gs : List (Nat → Nat → Rat)) (p : Rat)
+    (hcell : ∀ r c, sumQ (List.zipWith (fun wt g => wt * g r c) ws gs) = p) (i j : Nat) :
+    sumQ (List.zipWith (fun wt g => wt * up2 H' W' h w g i j) ws gs) = p := by
+  obtain ⟨a, b, c, d, hsum, hup⟩ := rise_upsample_affine H' W' h w i j
+  have : (fun (wt : Rat) (g : Nat → Nat → Rat) => wt * up2 H' W' h w g i j)
+       = (fun wt g => wt * (a * g (tapLo H' h i) (tapLo W' w j) + b * g (tapLo H' h i) (tapHi W' w j)
+          + c * g (tapHi H' h i) (tapLo W' w j) + d * g (tapHi H' h i) (tapHi W' w j))) := by
+    funext wt g; rw [hup g]
+  rw [this, wsum_affine4, hcell, hcell, hcell, hcell]
+  calc a * p + b * p + c * p + d * p = (a + b + c + d) * p := by ring
+    _ = p := by rw [hsum, one_mul]
+
+/-- a constant grid is upsampled to the same constant (p = 1 keeps everything, p = 0 nothing) -/
+theorem rise_upsample_const (H' W' h w : Nat) (c : Rat) (i j : Nat) :
+    up2 H' W' h w (fun _ _ => c) i j = c := by
+  unfold up2 lerp; ring
+
 -- non-vacuity: concrete instances
 example : (Kind.img 6 10 3 2 3).upSize = (9, 13) := by decide +kernel
+-- two equiprobable grids, each cell kept with probability 1/2: the premise of rise_mean_preservation holds
+example : ∀ r c : Nat, sumQ (List.zipWith (fun (wt : Rat) (g : Nat → Nat → Rat) => wt * g r c) [1/2, 1/2]
+    [fun r c => if (r + c) % 2 = 0 then 1 else 0, fun r c => if (r + c) % 2 = 0 then 0 else 1]) = 1/2 := by
+  intro r c; by_cases h : (r + c) % 2 = 0 <;> simp [h, sumQ] <;> norm_num
 example : (Kind.ts 7 4 3).upSize = (9, 4) := by decide +kernel
 example : up2 4 4 2 2 (fun r c => if r = c then 1 else 0) 1 2 = 3 / 8 := by decide +kernel
 example : specPairs 2 (1/10) [([1, 0], 3), ([1/2, 1], -1)] = [some (25/16), some (-10/11)] := by decide +kernel
